@@ -331,9 +331,18 @@ def run(ctx):
             disagreements += 1
             if len(dis_cases) < 5:
                 dis_cases.append(i)
-    for i in nonterminating[:3]:
-        ctx.violation({"kind": "impl-violation", "statement": "check_type_relation does not terminate (stack overflow, process abort) on this type graph; the model runs out of fuel on the same queries",
-                       "case": cases[i][0], "model_output": model[i], "profile": cases[i][3]}, finding_key=NONTERM_KEY)
+    nonterm_unmatched = 0
+    for i in nonterminating:
+        qids = sorted({x for q in cases[i][1] for x in q[1:]})
+        key = NONTERM_KEY if reaches_recursive_callable(reg_text(model[i]) or "", qids) else None
+        obj = {"kind": "impl-violation", "statement": "check_type_relation does not terminate (stack overflow, process abort) on this type graph; the model runs out of fuel on the same queries",
+               "case": cases[i][0], "model_output": model[i], "profile": cases[i][3], "matched_signature": key}
+        if key and ctx.findings.get(key, {}).get("status") == "known" and ctx.findings[key].get("property") == ctx.pid:
+            ctx.violation(obj, finding_key=key)
+        else:
+            nonterm_unmatched += 1
+            if nonterm_unmatched <= 3:
+                ctx.violation(obj)
     # ------------------------------------------------------------------ semantic oracle on the REAL answers
     olines, ometa = [], []
     pairs_checked = triples_checked = 0
@@ -452,9 +461,21 @@ def run(ctx):
                       no_input=(len(in_dom) == 0))
 
 
-# provisional key (no id allocated): the Callable arm of check_type_relation records no coinductive
-# assumption, so recursive callable types can recurse until the stack overflows
-NONTERM_KEY = "C09-callable-nontermination"
+# F55: the Callable arm of check_type_relation records no coinductive assumption, so recursive callable
+# types can recurse until the stack overflows (process abort)
+NONTERM_KEY = "F55"
+
+
+def reaches_recursive_callable(regtext, ids):
+    """F55's signature: some queried id reaches a Callable from which a Cycle is reachable"""
+    try:
+        rv = RegView(regtext)
+    except Exception:
+        return False
+    for t in rv.reach(ids):
+        if rv.types[t][0] == "fn" and "cycle" in rv.kinds(rv.reach([t])):
+            return True
+    return False
 
 
 def run_resilient(ctx, exe, lines, args=()):
@@ -610,6 +631,12 @@ def classify_known(regtext, stmt, a, b):
         # operand, was fixed by f9e893e and no longer excuses anything.)
         if "cycle" in rv.kinds(ra):
             return "F24"
+        # F56: `o` is not recursive but `n` (= b) has a callable/process variant with an escaping
+        # Cycle: contains_cycle does not look into Callable/Process, so the is_compatible shortcut is
+        # applied to the open variant, whose dangling Cycle answers true
+        memo = {}
+        if any(rv.types[t][0] in ("fn", "proc") and rv.free_depth(t, memo) > 0 for t in rb):
+            return "F56"
         if "unnamed" in rv.partial_names(ra) and "named" in rv.partial_names(rb):
             return PARTIAL_NAME_KEY
         return None
